@@ -82,7 +82,7 @@ type vfStore struct {
 	// ShortAt, if set, may cap a ReadAt at fewer bytes than asked for, with a nil error (a short
 	// DATA reply that is not the end of the file: unusual, legal for a peer). 0 = no cap.
 	ShortAt func(path string, off int64, n int) int
-	Now int64
+	Now     int64
 }
 
 func vfNewStore() *vfStore {
